@@ -322,7 +322,9 @@ def line_text(l, sp):
     s = pre + body
     if sp.comment:
         sp.n += 1
-        text = COMMENT_TEXTS[(sp.n + l["ln"]) % len(COMMENT_TEXTS)]
+        # every line meets every text over the descriptors of a case
+        text = COMMENT_TEXTS[(sp.n + l["ln"] + 5 * sp.ws + 11 * sp.blank_before + 3 * len(sp.radix) + (7 if sp.case == "upper" else 0) + (13 if sp.eol != "\n" else 0))
+                             % len(COMMENT_TEXTS)]
         glue = "" if (sp.ws + sp.blank_before + len(sp.radix)) % 2 == 0 and s else " "    # half of the descriptors: no blank before the comment
         if sp.comment == ";":
             s += glue + "; " + text
